@@ -77,6 +77,12 @@ class C09(InterpProp):
         if mut:
             # the implementation-side `__old__` channel: was a failing condition shown the documented __old__?
             case.payload['record_old'] = True
+        elif rnd.random() < 0.12:
+            # each interpreter has a clock of its own that moves whenever it is read (time passes between two
+            # readings of a wall clock): checking contracts must not add readings (implementation only)
+            case.payload['tick_clock'] = True
+            case.payload['no_model'] = True
+            case.model_ok = False
         return case
 
     def _pair(self, enc, sc, ops1):
